@@ -21,6 +21,37 @@ add("C02", "exploration", "bounded exhaustive enumeration; derivation-tree check
     "For every sentence of every accepted grammar of the C01 space the tree delivered through TreeConstruct and the recorded action calls are checked by definition: each inner node is a production of the transformed grammar, actions are the post-order list of applications, children slices equal the node children, yield equals the input.",
     BIND)
 
+add("C03", "exploration", "bounded exhaustive enumeration of LALR grammars x inputs against L<=n; reduction-replay derivation checker",
+    "Every productive/reachable canonical BNF grammar (left-recursive and with recursive start symbols) and EBNF body of the space is given to the LALR(1) pipeline inside catch_unwind; for each conflict-free table every token string up to length n goes through the real scanner + LRParser; verdict vs L<=n; on success the reported reductions are replayed on a stack and must build exactly one tree rooted at the start symbol whose yield is the input, equal to the delivered tree.",
+    BIND)
+add("C04", "exploration", "bounded exhaustive enumeration; textbook LALR(1) construction and L<=n as oracles",
+    "Same grammar space as C03 including ambiguous grammars. A reference LALR(1) construction (canonical LR(1) item sets merged by core) decides whether a conflict exists; if so parol must reject or report a resolved conflict. Every input accepted by any table parol builds (conflicts resolved or not) must be in L<=n.",
+    BIND + "; the reference LALR(1) construction is harness code written from the textbook definition")
+add("C05", "exploration", "bounded exhaustive enumeration; strong-LL(k) decided by definition",
+    "All well-formed grammars of the space x lookahead limits K: calculate_lookahead_dfas / decidable must accept exactly when every non-terminal has pairwise disjoint FIRST_k(alpha)(+)FOLLOW_k(A) for some k<=K (reference: Kleene iteration on plain string sets), with the minimal k per non-terminal.",
+    "reference FIRST/FOLLOW are least fixpoints over BTreeSet<Vec<u16>> written in the harness; terminal numbering from Cfg::get_ordered_terminals")
+add("C06", "model_checking", "explicit-state BFS over cache request sequences on the real FirstCache/FollowCache; invariant = equality with FIRST_k/FOLLOW_k by definition",
+    "Per grammar a breadth-first search over all sequences of first(k)/follow(k) requests (k<=Kb, depth<=d) on fresh real cache objects; states are deduplicated on the content of all filled cache slots; in every reached state every filled slot must equal the reference set. States/transitions are reported; every transition is an execution of the real code.",
+    "hook H5 (read access to a FollowCache entry); reference sets as in C05; at k=0 only 'subset of {eps,$}' is demanded")
+add("C07", "exploration", "bounded exhaustive enumeration of token strings through generated and unminimized automata",
+    "For every non-terminal of every accepted grammar all token strings over T+{$} up to length k+1 are run through the automaton recovered from the generated source (minimized) and the public unminimized LookaheadDFA; the production reached must be p exactly when the string is in p's reference lookahead set.",
+    BIND)
+add("C08", "exploration", "bounded exhaustive enumeration of token buffers through the real LookaheadDFA::eval",
+    "For every non-terminal of every accepted grammar every token buffer the real scanner/TokenStream produces from inputs of <= k+2 tokens over T plus a foreign token is given to the real eval(); Ok(p) iff the buffer begins with a reference lookahead string of p, Err otherwise.",
+    BIND)
+add("C09", "exploration", "bounded exhaustive enumeration of EBNF bodies; per-non-terminal L<=n equality",
+    "Every EBNF body up to a size bound (nested groups/optionals/repetitions, empty alternatives, user non-terminals named like parol's helpers) for both grammar types: the canonicalized Cfg must generate, for every user non-terminal, exactly the L<=n of the harness's own tree.",
+    "L<=n by Kleene iteration over BTreeSet<Vec<u8>> in the harness")
+add("C10", "exploration", "bounded exhaustive enumeration; L<=n equality, prefix test, watchdog",
+    "left_factor is run (under a watchdog) on every productive/reachable BNF grammar of the space and on every canonicalized EBNF body: language of every original non-terminal unchanged, no two alternatives of one non-terminal start with an equal Symbol, new names fresh (user names SSuffix, SSuffix0.. included).",
+    "parol's own Symbol equality defines 'same symbol'")
+add("C11", "exploration", "bounded exhaustive enumeration; closures from the definitions",
+    "For every canonical BNF grammar of the space (non-productive, unreachable, hidden-left-recursive ones included) the four public analysis functions must equal closures computed from the definitions and check_and_transform_grammar must return the matching error kind naming exactly the reference set, Ok otherwise.",
+    "reference closures in harness/src/gram.rs")
+add("C12", "exploration", "bounded exhaustive enumeration; L<=n equality and shape test",
+    "For every productive/reachable grammar (recursive start symbols included) the grammar handed to LALR(1) table construction must have the same L<=n, a start symbol with exactly one production that occurs on no right-hand side.",
+    "L<=n reference")
+
 NOT_BUILT = {}
 
 def main():
